@@ -114,6 +114,17 @@ func probeURLs(assets []app.VerifAsset, r *Rng, dense bool) []string {
 		for ri := range a.Reps {
 			rp := &a.Reps[ri]
 			urls = append(urls, fmt.Sprintf("/livesim2/%s/%s?nowMS=%d", a.AssetPath, rp.InitURI, now))
+			if (rp.ContentType == "video" || rp.ContentType == "audio") && !rp.PreEncrypted {
+				// on-the-fly encryption is prepared when the representation is loaded: scanned and cache-loaded alike
+				e := expectSeg(a, ref, n, 0)
+				av, _ := availMS(e, ref.MediaTimescale, 0, 0)
+				id := strconv.Itoa(e.nr)
+				media := strings.NewReplacer("$Number$", id, "$Time$", id).Replace(rp.MediaURI)
+				for _, drm := range []string{"eccp_cenc/", "eccp_cbcs/"} {
+					urls = append(urls, fmt.Sprintf("/livesim2/%s%s/%s?nowMS=%d", drm, a.AssetPath, rp.InitURI, now),
+						fmt.Sprintf("/livesim2/%s%s/%s?nowMS=%d", drm, a.AssetPath, media, av+int64(a.SegmentDurMS)))
+				}
+			}
 			for _, k := range ks {
 				e := expectSeg(a, ref, k, 0)
 				av, _ := availMS(e, ref.MediaTimescale, 0, 0)
